@@ -122,6 +122,23 @@ Proof.
   cbn [Z.eqb]. unfold init_surface. rnum. reflexivity.
 Qed.
 
+(* with a water table th_fc_Adj is dead as well ([SeasonIndepDay.day1_dead_concrete_table]): no premise about it *)
+Theorem reset_matches_init_table par par1 k ws (s : DState R) zgw0 fcr th0 s_init :
+  p_sim_off par = false ->
+  so_nComp (p_soil par) = Z.of_nat (length (so_prof (p_soil par))) ->
+  fresh_like par par1 k ->
+  init_state par1 0 zgw0 fcr th0 = Some s_init ->
+  d_thini s = d_thini s_init ->
+  proj_fc (reset par k ws s) = proj_fc s_init.
+Proof.
+  intros Eoff Hn [Hp Hs Hh Hc] Hi Hth.
+  destruct (init_state_inv _ _ _ _ _ _ Hi) as (z & b & fc & th & _ & ->).
+  cbn [d_thini] in Hth.
+  unfold proj_fc, set_fc. unfold proj. dproj. unfold reset. dproj. rewrite Eoff. cbn [negb].
+  rewrite Hth, Hn, Nat2Z.id, repeat_map_const, Hp, Hh, Hc, Hs.
+  cbn [Z.eqb]. unfold init_surface. rnum. reflexivity.
+Qed.
+
 (* ---- the two premises, for runs without a water table ------------------------------------------------------------------ *)
 Definition carry_inv (par : DPar R) (th0 : list R) (s : DState R) : Prop :=
   d_thini s = th0 /\ d_th_fc_Adj s = map (fun c => c_th_fc c) (so_prof (p_soil par)).
@@ -168,6 +185,21 @@ Proof.
               (carry_inv par th0) (fun _ => True) (fun _ => True)) with (c := c) (ws := ws) (fuel := fuel) (m0 := m0) (m' := m)
     as (evs & _ & HI & _); try assumption.
   - intros e Hd _ Hpre. split; [|exact I]. exact (carry_inv_day _ _ _ _ _ _ _ _ _ _ _ Hwt (is_day_opt par crops e Hd) Hpre).
+  - intros k ws' p Hp. exact Hp.
+  - intros t w _. exact I.
+Qed.
+
+(* the stored initial content alone, with or without a water table: no day (defined or not) and no reset writes it *)
+Theorem run_steps_thini par crops c ws n (m0 m : CModel (F:=R)) :
+  run_steps_c par crops c ws n m0 = GOk m -> d_thini (phys (st m)) = d_thini (phys (st m0)).
+Proof.
+  intros H. unfold run_steps_c in H.
+  destruct (run_steps_g_inv _ _ _ _ (proc_c par crops) dead (matured par) (summary_of par) (reset par) (defined_c par crops)
+              (fun s => d_thini s = d_thini (phys (st m0))) (fun _ => True) (fun _ => True)) with (c := c) (ws := ws) (k := n) (m0 := m0) (m' := m)
+    as (evs & _ & HI & _); try assumption; try reflexivity.
+  - intros e [_ Hp] _ Hpre. split; [|exact I]. unfold proc_c in Hp.
+    rewrite <- Hpre. rewrite <- (day_proc_keeps_thini par (total (procs_concrete crops)) (e_season _ _ _ e) (e_gs _ _ _ e) (e_dap _ _ _ e)
+                                   (e_tsc _ _ _ e) (e_w _ _ _ e) (e_pre _ _ _ e)). rewrite Hp. reflexivity.
   - intros k ws' p Hp. exact Hp.
   - intros t w _. exact I.
 Qed.
@@ -409,7 +441,7 @@ Section ClockSim.
            end; try discriminate; injection H as <-; try (exfalso; apply Hne; reflexivity).
     - exists s, t. repeat split; reflexivity.
     - match goal with E : (_ =? _)%Z = true |- _ => apply Z.eqb_eq in E; subst t end.
-      eexists _, _. split; [reflexivity|]. split; [reflexivity | exact En].
+      eexists _, _. split; [reflexivity|]. split; reflexivity.
   Qed.
 End ClockSim.
 
@@ -423,14 +455,11 @@ Arguments ogres_rel {Phys Row Out} Rl o o'.
 (* ============================================================================================================ *)
 (*  Part 4.2  the concrete season                                                                                 *)
 (* ============================================================================================================ *)
-Section Season.
+Section SeasonCore.
   Variables (par : DPar R) (crops : Z -> CropFull R) (c : ClockP) (ws : list (Day.W R)).
   Notation procc := (proc_c par crops).
   Notation defc := (defined_c par crops).
   Notation CM := (CModel (F:=R)).
-
-  Hypothesis Hok : hi_crops_ok crops.
-  Hypothesis Eoff : p_sim_off par = false.
 
   (* the clock state right after update_time started season k at step pk from the state [stp] of the previous day *)
   Variables (stp : St (DState R)) (k pk : Z).
@@ -438,12 +467,75 @@ Section Season.
   (* the freshly initialised physical state *)
   Variable s_i : DState R.
   Hypothesis Hin : in_season (DState R) dead c st_r = true.       (* the planting step of season k is a day of the season *)
+  (* the first day of the season treats the two physical states alike *)
+  Hypothesis Hdead : dead s_i = dead (phys st_r).
+  Hypothesis Hday : forall w,
+    procc k true 1 pk w s_i = procc k true 1 pk w (reset par k ws (phys stp)) /\
+    defc k true 1 pk w s_i = defc k true 1 pk w (reset par k ws (phys stp)).
+
+  Lemma first_clock_step_same w :
+    day_step (DState R) (Day.W R) (DRow R) (DOut R) procc dead (matured par) (summary_of par) c w (with_phys st_r s_i) =
+    day_step (DState R) (Day.W R) (DRow R) (DOut R) procc dead (matured par) (summary_of par) c w st_r /\
+    day_defined (DState R) (Day.W R) dead defc c w (with_phys st_r s_i) = day_defined (DState R) (Day.W R) dead defc c w st_r.
+  Proof.
+    split.
+    - apply day_step_with_phys; [exact Hdead|]. cbv zeta. rewrite Hin. exact (proj1 (Hday w)).
+    - apply day_defined_with_phys; [exact Hdead|]. cbv zeta. rewrite Hin. exact (proj2 (Hday w)).
+  Qed.
+
+  (* the two models: same clock, any tables *)
+  Variables (T T' : Tables (DRow R) (DOut R)).
+  Let m_reset : CM := {| st := st_r; tabs := T |}.
+  Let m_init : CM := {| st := with_phys st_r s_i; tabs := T' |}.
+
+  Theorem core_first_step : gres_rel (step_rel m_reset m_init) (perform_c par crops c ws m_reset) (perform_c par crops c ws m_init).
+  Proof.
+    unfold perform_c. apply perform_g_sim; [reflexivity|]. intros w _. exact (first_clock_step_same w).
+  Qed.
+
+  Theorem core_run_steps n :
+    gres_rel (run_rel m_reset m_init) (run_steps_c par crops c ws (S n) m_reset) (run_steps_c par crops c ws (S n) m_init).
+  Proof. unfold run_steps_c. apply run_steps_g_first. exact core_first_step. Qed.
+
+  Theorem core_run_till fuel : fin stp = false ->
+    ogres_rel (run_rel m_reset m_init) (run_till_c par crops c ws (S fuel) m_reset) (run_till_c par crops c ws (S fuel) m_init).
+  Proof. intros F. unfold run_till_c. apply run_till_g_first; [exact F | exact F | exact core_first_step]. Qed.
+
+  Theorem core_run_steps_total n :
+    res_rel (run_rel m_reset m_init)
+      (run_steps (DState R) (Day.W R) (DRow R) (DOut R) procc dead (matured par) (summary_of par) (reset par) c ws (S n) m_reset)
+      (run_steps (DState R) (Day.W R) (DRow R) (DOut R) procc dead (matured par) (summary_of par) (reset par) c ws (S n) m_init).
+  Proof.
+    apply run_steps_first. apply perform_sim; [reflexivity|]. intros w _. exact (proj1 (first_clock_step_same w)).
+  Qed.
+
+  Corollary core_run_steps_ok n a : run_steps_c par crops c ws (S n) m_reset = GOk a ->
+    exists b, run_steps_c par crops c ws (S n) m_init = GOk b /\ st a = st b /\
+      exists dr ds, rows (tabs a) = dr ++ rows T /\ rows (tabs b) = dr ++ rows T' /\
+                    sums (tabs a) = ds ++ sums T /\ sums (tabs b) = ds ++ sums T'.
+  Proof.
+    intros H. pose proof (core_run_steps n) as G. rewrite H in G.
+    destruct (run_steps_c par crops c ws (S n) m_init) as [b|e|t]; cbn in G; try contradiction.
+    exists b. split; [reflexivity|]. exact G.
+  Qed.
+End SeasonCore.
+
+(* ---- the premise in the form of Part 3: the two states agree outside the dead fields ---------------------------------- *)
+Section Season.
+  Variables (par : DPar R) (crops : Z -> CropFull R) (c : ClockP) (ws : list (Day.W R)).
+  Notation procc := (proc_c par crops).
+  Notation defc := (defined_c par crops).
+  Notation CM := (CModel (F:=R)).
+  Hypothesis Hok : hi_crops_ok crops.
+  Hypothesis Eoff : p_sim_off par = false.
+  Variables (stp : St (DState R)) (k pk : Z).
+  Let st_r : St (DState R) := start_season' par k ws stp pk.
+  Variable s_i : DState R.
+  Hypothesis Hin : in_season (DState R) dead c st_r = true.
   Hypothesis Hproj : proj (reset par k ws (phys stp)) = proj s_i.
 
   Lemma s_i_dead : dead s_i = dead (phys st_r).
-  Proof.
-    unfold dead. rewrite <- (proj_keeps_dead s_i), <- Hproj. reflexivity.
-  Qed.
+  Proof. unfold dead. rewrite <- (proj_keeps_dead s_i), <- Hproj. reflexivity. Qed.
   Lemma s_i_dcd : (0 <= d_delayed_cds s_i)%Z.
   Proof. rewrite <- (proj_keeps_dcd s_i), <- Hproj. cbn [proj reset d_delayed_cds]. lia. Qed.
 
@@ -460,57 +552,81 @@ Section Season.
       rewrite Hproj. reflexivity.
   Qed.
 
-  Lemma first_clock_step_same w :
-    day_step (DState R) (Day.W R) (DRow R) (DOut R) procc dead (matured par) (summary_of par) c w (with_phys st_r s_i) =
-    day_step (DState R) (Day.W R) (DRow R) (DOut R) procc dead (matured par) (summary_of par) c w st_r /\
-    day_defined (DState R) (Day.W R) dead defc c w (with_phys st_r s_i) = day_defined (DState R) (Day.W R) dead defc c w st_r.
-  Proof.
-    split.
-    - apply day_step_with_phys; [exact s_i_dead|]. cbv zeta. rewrite Hin. exact (proj1 (first_day_same w)).
-    - apply day_defined_with_phys; [exact s_i_dead|]. cbv zeta. rewrite Hin. exact (proj2 (first_day_same w)).
-  Qed.
-
-  (* the two models: same clock, any tables *)
   Variables (T T' : Tables (DRow R) (DOut R)).
   Let m_reset : CM := {| st := st_r; tabs := T |}.
   Let m_init : CM := {| st := with_phys st_r s_i; tabs := T' |}.
 
   (* the first performed step yields the same row, the same summary row (if any) and the same model state *)
   Theorem season_first_step : gres_rel (step_rel m_reset m_init) (perform_c par crops c ws m_reset) (perform_c par crops c ws m_init).
-  Proof.
-    unfold perform_c. apply perform_g_sim; [reflexivity|]. intros w _. exact (first_clock_step_same w).
-  Qed.
+  Proof. exact (core_first_step par crops c ws stp k pk s_i Hin s_i_dead first_day_same T T'). Qed.
 
   (* ... hence the same rows, summary rows and states for every positive step count *)
   Theorem season_run_steps n :
     gres_rel (run_rel m_reset m_init) (run_steps_c par crops c ws (S n) m_reset) (run_steps_c par crops c ws (S n) m_init).
-  Proof. unfold run_steps_c. apply run_steps_g_first. exact season_first_step. Qed.
+  Proof. exact (core_run_steps par crops c ws stp k pk s_i Hin s_i_dead first_day_same T T' n). Qed.
 
   (* ... and to termination *)
   Theorem season_run_till fuel : fin stp = false ->
     ogres_rel (run_rel m_reset m_init) (run_till_c par crops c ws (S fuel) m_reset) (run_till_c par crops c ws (S fuel) m_init).
-  Proof. intros F. unfold run_till_c. apply run_till_g_first; [exact F | exact F | exact season_first_step]. Qed.
+  Proof. exact (core_run_till par crops c ws stp k pk s_i Hin s_i_dead first_day_same T T' fuel). Qed.
 
   (* the same for the unguarded loop of Clock.v (a day that raises computes with the defaults there) *)
   Theorem season_run_steps_total n :
     res_rel (run_rel m_reset m_init)
       (run_steps (DState R) (Day.W R) (DRow R) (DOut R) procc dead (matured par) (summary_of par) (reset par) c ws (S n) m_reset)
       (run_steps (DState R) (Day.W R) (DRow R) (DOut R) procc dead (matured par) (summary_of par) (reset par) c ws (S n) m_init).
-  Proof.
-    apply run_steps_first. apply perform_sim; [reflexivity|]. intros w _. exact (proj1 (first_clock_step_same w)).
-  Qed.
+  Proof. exact (core_run_steps_total par crops c ws stp k pk s_i Hin s_i_dead first_day_same T T' n). Qed.
 
   (* readable form of [season_run_steps] for a run that returns *)
   Corollary season_run_steps_ok n a : run_steps_c par crops c ws (S n) m_reset = GOk a ->
     exists b, run_steps_c par crops c ws (S n) m_init = GOk b /\ st a = st b /\
       exists dr ds, rows (tabs a) = dr ++ rows T /\ rows (tabs b) = dr ++ rows T' /\
                     sums (tabs a) = ds ++ sums T /\ sums (tabs b) = ds ++ sums T'.
-  Proof.
-    intros H. pose proof (season_run_steps n) as G. rewrite H in G.
-    destruct (run_steps_c par crops c ws (S n) m_init) as [b|e|t]; cbn in G; try contradiction.
-    exists b. split; [reflexivity|]. exact G.
-  Qed.
+  Proof. exact (core_run_steps_ok par crops c ws stp k pk s_i Hin s_i_dead first_day_same T T' n a). Qed.
 End Season.
+
+(* ---- with a water table: agreement outside the dead fields and th_fc_Adj ---------------------------------------------- *)
+Section SeasonTable.
+  Variables (par : DPar R) (crops : Z -> CropFull R) (c : ClockP) (ws : list (Day.W R)).
+  Notation procc := (proc_c par crops).
+  Notation defc := (defined_c par crops).
+  Notation CM := (CModel (F:=R)).
+  Hypothesis Hok : hi_crops_ok crops.
+  Hypothesis Eoff : p_sim_off par = false.
+  Hypothesis Hwt : p_water_table par = 1%Z.
+  Variables (stp : St (DState R)) (k pk : Z).
+  Let st_r : St (DState R) := start_season' par k ws stp pk.
+  Variable s_i : DState R.
+  Hypothesis Hin : in_season (DState R) dead c st_r = true.
+  Hypothesis Hproj : proj_fc (reset par k ws (phys stp)) = proj_fc s_i.
+
+  Lemma s_i_dead_t : dead s_i = dead (phys st_r).
+  Proof. unfold dead. change (d_crop_dead s_i) with (d_crop_dead (proj_fc s_i)). rewrite <- Hproj. reflexivity. Qed.
+  Lemma s_i_dcd_t : (0 <= d_delayed_cds s_i)%Z.
+  Proof. change (d_delayed_cds s_i) with (d_delayed_cds (proj_fc s_i)). rewrite <- Hproj. cbn [proj_fc set_fc proj reset d_delayed_cds]. lia. Qed.
+
+  Lemma first_day_same_t w :
+    procc k true 1 pk w s_i = procc k true 1 pk w (reset par k ws (phys stp)) /\
+    defc k true 1 pk w s_i = defc k true 1 pk w (reset par k ws (phys stp)).
+  Proof.
+    destruct (day1_dead_concrete_table par crops k pk w s_i Hok Eoff Hwt s_i_dcd_t) as [A1 A2].
+    destruct (day1_dead_concrete_table par crops k pk w (reset par k ws (phys stp)) Hok Eoff Hwt) as [B1 B2]; [cbn [reset d_delayed_cds]; lia|].
+    unfold proc_c. rewrite <- A1, <- A2, <- B1, <- B2, Hproj. split; reflexivity.
+  Qed.
+
+  Variables (T T' : Tables (DRow R) (DOut R)).
+  Let m_reset : CM := {| st := st_r; tabs := T |}.
+  Let m_init : CM := {| st := with_phys st_r s_i; tabs := T' |}.
+
+  Theorem season_table_first_step : gres_rel (step_rel m_reset m_init) (perform_c par crops c ws m_reset) (perform_c par crops c ws m_init).
+  Proof. exact (core_first_step par crops c ws stp k pk s_i Hin s_i_dead_t first_day_same_t T T'). Qed.
+  Theorem season_table_run_steps n :
+    gres_rel (run_rel m_reset m_init) (run_steps_c par crops c ws (S n) m_reset) (run_steps_c par crops c ws (S n) m_init).
+  Proof. exact (core_run_steps par crops c ws stp k pk s_i Hin s_i_dead_t first_day_same_t T T' n). Qed.
+  Theorem season_table_run_till fuel : fin stp = false ->
+    ogres_rel (run_rel m_reset m_init) (run_till_c par crops c ws (S fuel) m_reset) (run_till_c par crops c ws (S fuel) m_init).
+  Proof. exact (core_run_till par crops c ws stp k pk s_i Hin s_i_dead_t first_day_same_t T T' fuel). Qed.
+End SeasonTable.
 
 (* the planting step of a season is a day of that season *)
 Lemma in_season_started par c ws (stp : St (DState R)) k pk : wf_clock c -> nthZ (plant c) k = Some pk ->
@@ -563,15 +679,49 @@ Theorem season_indep_run_no_table par par1 crops c ws k0 zgw0 fcr th0 s0 (m0 m :
   let m_init : CModel (F:=R) := {| st := with_phys (st m) s_init; tabs := T' |} in
   forall n, gres_rel (run_rel m m_init) (run_steps_c par crops c ws (S n) m) (run_steps_c par crops c ws (S n) m_init).
 Proof.
-  intros Hok Eoff Hwt Hwt1 Hn Hwf Hi0 Hm0 Hrun Hst Hp Hfl Hi1 m_init n.
+  intros Hok Eoff Hwt Hwt1 Hn Hwf Hi0 Hm0 Hrun Hst Hp Hfl Hi1.
   assert (C0 : carry_inv par th0 (phys (st m0))) by (rewrite Hm0; exact (carry_inv_init par k0 zgw0 fcr th0 s0 Hwt Hi0)).
   pose proof (run_steps_carry_no_table par crops c ws th0 n0 m0 m Hwt C0 Hrun) as C.
   rewrite Hst in C. cbn [start_season' start_season phys] in C. apply carry_inv_of_reset in C.
-  assert (Em : m = {| st := start_season' par k ws stp pk; tabs := tabs m |}) by (destruct m as [sm tm]; cbn in Hst |- *; rewrite Hst; reflexivity).
-  subst m_init. rewrite Hst. rewrite Em at 1 2 3.
+  clear Hrun. destruct m as [sm tm]. cbn [st] in Hst |- *. subst sm. cbv zeta. intros n.
   apply season_run_steps; try assumption.
   - apply in_season_started; assumption.
   - exact (reset_matches_init_no_table par par1 k ws (phys stp) zgw1 fcr1 th0 s_init Eoff Hwt Hwt1 Hn Hfl Hi1 C).
+Qed.
+
+(* ---- THE STATEMENT WITH a water table: the one premise that remains is that the two initialisations stored the same initial
+        water contents ([d_thini s0 = d_thini s_init]); it holds when they ran with the same table depth, the same "FC" flag and
+        the same interpolated contents ([init_thini_same]) and can fail otherwise ([init_water_depends_on_depth]). --------------- *)
+Lemma init_thini_same par par1 k0 k1 zgw fcr th0 s0 s1 :
+  so_prof (p_soil par1) = so_prof (p_soil par) -> p_water_table par1 = p_water_table par ->
+  init_state par k0 zgw fcr th0 = Some s0 -> init_state par1 k1 zgw fcr th0 = Some s1 -> d_thini s0 = d_thini s1.
+Proof.
+  intros Hp Hw H0 H1.
+  destruct (init_state_inv _ _ _ _ _ _ H0) as (z & b & fc & th & E0 & ->).
+  destruct (init_state_inv _ _ _ _ _ _ H1) as (z' & b' & fc' & th' & E1 & ->).
+  rewrite Hp, Hw, E0 in E1. injection E1 as _ _ _ <-. reflexivity.
+Qed.
+
+Theorem season_indep_run_table par par1 crops c ws k0 zgw0 fcr th0 s0 (m0 m : CModel (F:=R)) n0
+        (stp : St (DState R)) k pk zgw1 fcr1 th1 s_init T' :
+  hi_crops_ok crops -> p_sim_off par = false -> p_water_table par = 1%Z ->
+  so_nComp (p_soil par) = Z.of_nat (length (so_prof (p_soil par))) ->
+  wf_clock c ->
+  init_state par k0 zgw0 fcr th0 = Some s0 -> phys (st m0) = s0 ->
+  run_steps_c par crops c ws n0 m0 = GOk m ->
+  st m = start_season' par k ws stp pk -> nthZ (plant c) k = Some pk ->
+  fresh_like par par1 k -> init_state par1 0 zgw1 fcr1 th1 = Some s_init ->
+  d_thini s0 = d_thini s_init ->
+  let m_init : CModel (F:=R) := {| st := with_phys (st m) s_init; tabs := T' |} in
+  forall n, gres_rel (run_rel m m_init) (run_steps_c par crops c ws (S n) m) (run_steps_c par crops c ws (S n) m_init).
+Proof.
+  intros Hok Eoff Hwt Hn Hwf Hi0 Hm0 Hrun Hst Hp Hfl Hi1 Hth.
+  pose proof (run_steps_thini par crops c ws n0 m0 m Hrun) as C. rewrite Hm0, Hst in C.
+  cbn [start_season' start_season phys] in C. rewrite reset_keeps_thini in C.
+  clear Hrun. destruct m as [sm tm]. cbn [st] in Hst |- *. subst sm. cbv zeta. intros n.
+  apply season_table_run_steps; try assumption.
+  - apply in_season_started; assumption.
+  - apply (reset_matches_init_table par par1 k ws (phys stp) zgw1 fcr1 th1 s_init); try assumption. rewrite C. exact Hth.
 Qed.
 
 (* a season start inside a run is [start_season'] of the state the day ended in: the premise [st m = start_season' ...] of the
@@ -602,10 +752,10 @@ Lemma ex_clock2_wf : wf_clock ex_clock2.
 Proof.
   assert (P : forall k x, nthZ [0%Z; 150%Z] k = Some x -> (k = 0 /\ x = 0 \/ k = 1 /\ x = 150)%Z).
   { intros k x. unfold nthZ. destruct (Z.ltb_spec k 0); [discriminate|].
-    destruct (Z.to_nat k) as [|[|[|n]]] eqn:En; cbn; intros [= <-]; [left|right|]; try (split; [lia|reflexivity]). }
+    destruct (Z.to_nat k) as [|[|[|n]]] eqn:En; cbn; intros [= <-]; [left|right]; (split; [lia|reflexivity]). }
   assert (Hh : forall k x, nthZ [100%Z; 250%Z] k = Some x -> (k = 0 /\ x = 100 \/ k = 1 /\ x = 250)%Z).
   { intros k x. unfold nthZ. destruct (Z.ltb_spec k 0); [discriminate|].
-    destruct (Z.to_nat k) as [|[|[|n]]] eqn:En; cbn; intros [= <-]; [left|right|]; try (split; [lia|reflexivity]). }
+    destruct (Z.to_nat k) as [|[|[|n]]] eqn:En; cbn; intros [= <-]; [left|right]; (split; [lia|reflexivity]). }
   constructor; cbn [ex_clock2 plant harv n_steps].
   - reflexivity.
   - intros k p h Hp Hq. apply P in Hp. apply Hh in Hq. lia.
@@ -648,6 +798,8 @@ Print Assumptions reset_matches_init.
 Print Assumptions run_steps_carry_no_table.
 Print Assumptions run_till_carry_no_table.
 Print Assumptions reset_matches_init_no_table.
+Print Assumptions reset_matches_init_table.
+Print Assumptions run_steps_thini.
 Print Assumptions init_water_depends_on_depth.
 Print Assumptions run_steps_sim.
 Print Assumptions run_steps_first.
@@ -662,5 +814,9 @@ Print Assumptions season_run_steps_total.
 Print Assumptions season_run_steps_ok.
 Print Assumptions season_indep_init.
 Print Assumptions season_indep_run_no_table.
+Print Assumptions season_table_first_step.
+Print Assumptions season_table_run_steps.
+Print Assumptions season_table_run_till.
+Print Assumptions season_indep_run_table.
 Print Assumptions perform_c_new_season.
 Print Assumptions season_indep_example.
